@@ -643,8 +643,8 @@ def seq_cfg(alphabet, maxlen):
     return vf.cfg_text(c, init="TInit", next_="TNext", invariants=("EmitSeqs",))
 
 
-C11_FAMILIES = {"quick": [("prec", 5), ("ops", 4), ("postfix", 4), ("forms", 4), ("mixed", 4)],
-                "thorough": [("prec", 6), ("ops", 4), ("postfix", 5), ("forms", 5), ("mixed", 5)]}
+C11_FAMILIES = {"quick": [("prec", 5), ("ops", 4), ("postfix", 4), ("forms", 4), ("mixed", 4), ("cond", 7)],
+                "thorough": [("prec", 6), ("ops", 4), ("postfix", 5), ("forms", 5), ("mixed", 5), ("cond", 9)]}
 C11_SEQS = {"quick": [("ops", 4), ("post", 4), ("forms", 4)], "thorough": [("ops", 5), ("post", 5), ("forms", 5)]}
 
 
